@@ -136,7 +136,8 @@ def run_r12c(chk, F):
     return bounds_audit(chk, F, "R12c", "C12", CA, "the analysis crate", "the analysis panics")
 
 
-def bounds_audit(chk, F, rule, prop, crate, what, effect, only=None):
+def bounds_audit(chk, F, rule, prop, crate, what, effect, only=None, kinds=None):
+    kinds = kinds or KINDS
     chk.rule(rule, "every index / slice / positional Vec or String operation in %s is in bounds by a derived fact "
                    "(comparison with len, iteration variable, non-empty test, find position) or by an audited entry" % what)
     table = panicsurface.load_table()
@@ -151,7 +152,7 @@ def bounds_audit(chk, F, rule, prop, crate, what, effect, only=None):
         B = None
         ordinal = {}
         for bb, kind, line, detail in panics.sites(b):
-            if kind not in KINDS:
+            if kind not in kinds:
                 continue
             k = (kind, detail.split("::")[-1])
             ordinal[k] = ordinal.get(k, 0) + 1
